@@ -19,6 +19,10 @@ CHECKS = {
          "bounded-exhaustive enumeration of descriptor lists x ExecFile placement x socketpair placement x vfork/non-vfork on real launches of a self-reporting probe, each configuration started twice; identity oracle on (st_dev, st_ino)",
          "Every descriptor list of length <=3 (thorough: <=4) over {close marker, caller fds 0,1,2, reserved low fds, high fds, the ExecFile number} x ExecFile in {none, low, high} x internal socketpair landing inside or above the listed range x vfork / non-vfork, started twice from the same Runner value; the program (static C probe) reports every open descriptor with (dev, ino, cloexec); slot i must be the i-th listed open file, marker slots closed, nothing else open, Runner deep-equal before/after, second start identical. Plus container.Execve with Files/ExecFile lists (sync before/after exec).",
          "The harness makes all of its own descriptors close-on-exec and only shapes descriptor numbers it reserved itself (Go runtime descriptors are never touched). Process creation does not scale on this VM (~450 launches/s in total), which bounds the alphabet; quick uses a reduced value alphabet."),
+ "C07": ("fault_enumeration",
+         "enumeration of every launch configuration x one failure induced by real inputs at every reachable launch step (plus a crash of the supervisor inside the callback), on real launches; marker file, error location and child reaping as oracles",
+         "All 32 subsets of {sync callback, seccomp, user namespace, pivot root + mounts, unshare-cgroup-after-sync} x 21 fault classes (clone with a bad cgroup fd, id-map of size 0, unmapped uid/gid/group, closed fd in the list, ctty on a non-tty, missing mount source for each mount index, mkdir under a read-only bind, pivot root that is a file, missing work dir, soft>hard rlimit at each index, undecodable seccomp filter, callback error, execve ENOENT/EACCES/ENOEXEC, none): in the callback the pid must be a child of the caller still running the launcher image with the marker absent; after a failure the marker never exists, the error is a ChildError with the expected step and index (callback errors verbatim), and no child is left (children list, /proc/<pid>). A helper process whose callback SIGKILLs its own process covers 'supervisor dies inside the callback' for 16 configurations. The same fault classes go through the namespace runner, the tracer and container.Execve with sync before and after exec (host-side pid / container init identified through NSpid).",
+         "Failures are induced through inputs, not failpoints; steps that cannot be made to fail by inputs as root (close of the write end, getpid, setsid, keep-capability prctl, umount/rmdir of old_root, ptrace-me, SIGSTOP) are not covered. With sync after exec a callback error may legitimately find the program already started."),
  "C08": ("exploration",
          "bounded-exhaustive enumeration of limit records, two-run container histories, overrun programs per runner and the collector's cap x volume x chunk grid on real launches; getrlimit self-report, status table and buffer bound as oracles",
          "Every zero/non-zero pattern of the seven limit fields with CPUHard below/equal/above CPU (thorough: every field over {0, small, >2^32}) goes through PrepareRLimit into a real launch whose program reports getrlimit for all resources (configured ones exact, unconfigured ones equal to the launcher's); the same through container.Execve as all two-run histories over four limit records on one fresh container (sync before/after exec) and through the ptrace and namespace runners; CPU-limit, file-size-limit, time-bound and memory-bound overruns under every runner must give TLE/OLE/MLE with the measurements; the collector grid N in {0,1,2,4095,4096,65536} x volume in {0,N-1,N,N+1,N+2,N+65536,(16 MiB)} x chunk in {1,4096,1 MiB} must retain <= N+1 bytes, never block or break the writer, and close Done.",
